@@ -393,7 +393,10 @@ func runC18(t *testing.T, p *Plan) *Outcome {
 				}
 				m1, m2 := len(streams[c1]), len(streams[c2])
 				s.ParkLocks = map[string]bool{"pubsub.channels": true, "pubsub.subscribers": true}
+				// one server goroutine at a time reaches its first scheduling point (two running in parallel inside
+				// one step would make the run depend on the Go scheduler)
 				subs[c1].conn.Write(EncodeCmd(op.Args...))
+				s.Settle()
 				subs[c2].conn.Write(EncodeCmd(op.Args...))
 				s.Settle()
 				for st := 0; st < 400; st++ {
